@@ -9,6 +9,8 @@ fn main() {
         "chain" => engines::chain::run(&args),
         "pool" => engines::pool::run(&args),
         "crash" => engines::crash::run(&args),
+        "freeze" => engines::freeze::run(&args),
+        "freeze-child" => engines::freeze::child(&args),
         "crash-child" => engines::crash::child(&args),
         other => {
             eprintln!("unknown engine {other}");
